@@ -168,7 +168,7 @@ static void producers_run(int P, int per, int seed, std::vector<std::thread> &th
     const int pace = geti("pace", 0); // base pause between two messages of a producer, in us
     for (int p = 1; p <= P; p++)
         ths.emplace_back([=]() {
-            std::mt19937 rng(seed * 7919 + p);
+            std::mt19937 rng((unsigned)seed * 7919u + (unsigned)p);
             for (int k = 0; k < per; k++) {
                 logOne(p);
                 int r = rng() % 4;
